@@ -2,67 +2,68 @@ import OpcuaModel.Model.Tamper
 /-
   C09 — tampered, truncated or forged secured chunks are rejected.
 
-  Structural theorems hold for EVERY decryption and verification function
-  (nothing cryptographic is assumed); `C09_tamper_partial` is conditional on
-  an explicit unforgeability hypothesis.
+  State: after the `fix:` commit that added the two length checks to
+  `verifyAndDecrypt`. Structural theorems hold for EVERY decryption and
+  verification function and every byte string; the only hypotheses left are
+  facts about the parameters, not about the chunk: `headerLength ≥ 2` (it is
+  `12 + security header length` in the code) and `headerLength ≤ |r|` (it is the
+  number of bytes `MessageChunk.Decode` consumed from `r`).
+  `C09_tamper_partial` is conditional on an explicit unforgeability hypothesis.
 -/
 namespace Opcua.Props.C09
 open Opcua Opcua.Tamper
 
-/-- PARTIAL (guard `wellSized`): for all byte strings, all decryption and
-    verification functions, `verifyAndDecrypt` returns data or an error — no
-    slice or index expression fails. The unguarded statement is false, see the
-    `C09_finding_*` theorems. -/
-theorem C09_total_partial (P : Params) (dec : Bytes → Option Bytes) (verify : Bytes → Bytes → Bool)
-    (r : Bytes) (h : wellSized P dec r = true) :
+/-- TOTALITY, full strength: for ALL byte strings of all lengths, all
+    decryption and verification functions, `verifyAndDecrypt` returns data or
+    an error; no slice or index expression fails. -/
+theorem C09_total (P : Params) (dec : Bytes → Option Bytes) (verify : Bytes → Bytes → Bool)
+    (r : Bytes) (hH : 2 ≤ P.H) (hdec : P.H ≤ r.length) :
     (verifyAndDecrypt P dec verify r).isPanic = false := by
-  unfold wellSized at h
   unfold verifyAndDecrypt
-  simp only [Bool.and_eq_true, decide_eq_true_eq] at h
-  obtain ⟨hH, h⟩ := h
   have h1 : ¬ r.length < P.H := by omega
-  simp only [h1, if_false]
+  simp only [h1, decide_false, Bool.and_false, Bool.false_eq_true, if_false]
   cases hd : decrypted P dec r with
   | none => simp [Out.isPanic]
   | some b =>
-    simp only [hd, Bool.and_eq_true, decide_eq_true_eq] at h ⊢
-    obtain ⟨hb, h⟩ := h
-    have h2 : ¬ b.length < P.RS := by omega
-    simp only [h2, if_false]
-    cases hv : verify (b.take (b.length - P.RS)) (b.drop (b.length - P.RS)) with
-    | false => simp [Out.isPanic]
-    | true =>
-      simp only [Bool.not_true, Bool.false_eq_true, if_false]
-      cases hp : paddingLength P (b.take (b.length - P.RS)) with
-      | error s => simp [hp] at h
-      | ok pl =>
-        simp only [hp, decide_eq_true_eq] at h
-        have hl : (b.take (b.length - P.RS)).length = b.length - P.RS := by
-          simp [List.length_take]
-        have h3 : ¬ (b.length - P.RS < P.H + pl) := by omega
-        simp [h3, Out.isPanic]
+    simp only
+    by_cases hb : b.length < P.H + P.RS
+    · simp [hb, Out.isPanic]
+    · simp only [hb, if_false]
+      cases hv : verify (b.take (b.length - P.RS)) (b.drop (b.length - P.RS)) with
+      | false => simp [Out.isPanic]
+      | true =>
+        simp only [Bool.not_true, Bool.false_eq_true, if_false]
+        have hl := take_length_sub b P.RS
+        have hp : ∃ pl, paddingLength P (b.take (b.length - P.RS)) = .ok pl := by
+          unfold paddingLength
+          by_cases he : P.enc = true
+          · have h0 : ¬ (b.take (b.length - P.RS)).length = 0 := by omega
+            have h2 : ¬ (b.take (b.length - P.RS)).length < 2 := by omega
+            simp only [he, Bool.not_true, Bool.false_eq_true, if_false, h0, h2]
+            by_cases hS : P.S > 256 <;> simp [hS]
+          · simp [he]
+        obtain ⟨pl, hp⟩ := hp
+        simp only [hp]
+        split <;> simp [Out.isPanic]
 
-/-- PARTIAL (guard `sigFits`: the chunk, after decryption, is at least as long
-    as a signature): a chunk whose signature does not verify — anything made or
-    modified without the keys — is answered with an error, never a panic and
-    never data. -/
-theorem C09_rejected_partial (P : Params) (dec : Bytes → Option Bytes) (verify : Bytes → Bytes → Bool)
-    (r : Bytes) (h : sigFits P dec r = true)
+/-- A chunk whose signature does not verify — anything made or modified without
+    the keys, of ANY length — is answered with an error: never data, never a
+    panic. (No length guard any more.) -/
+theorem C09_rejected (P : Params) (dec : Bytes → Option Bytes) (verify : Bytes → Bytes → Bool)
+    (r : Bytes) (hdec : P.H ≤ r.length)
     (hbad : ∀ b, decrypted P dec r = some b →
       verify (b.take (b.length - P.RS)) (b.drop (b.length - P.RS)) = false) :
     verifyAndDecrypt P dec verify r = .err := by
-  unfold sigFits at h
   unfold verifyAndDecrypt
-  simp only [Bool.and_eq_true, decide_eq_true_eq] at h
-  obtain ⟨hH, h⟩ := h
   have h1 : ¬ r.length < P.H := by omega
-  simp only [h1, if_false]
+  simp only [h1, decide_false, Bool.and_false, Bool.false_eq_true, if_false]
   cases hd : decrypted P dec r with
   | none => rfl
   | some b =>
-    simp only [hd, decide_eq_true_eq] at h ⊢
-    have h2 : ¬ b.length < P.RS := by omega
-    simp [h2, hbad b hd]
+    simp only
+    by_cases hb : b.length < P.H + P.RS
+    · simp [hb]
+    · simp [hb, hbad b hd]
 
 /-- If data is returned, the signature check was evaluated, and succeeded, over
     ALL bytes of header ‖ plaintext except the signature itself (the two parts
@@ -70,53 +71,48 @@ theorem C09_rejected_partial (P : Params) (dec : Bytes → Option Bytes) (verify
     was received, and the returned data is a contiguous piece of the verified
     message that starts right after the header. -/
 theorem C09_covered (P : Params) (dec : Bytes → Option Bytes) (verify : Bytes → Bytes → Bool)
-    (r p : Bytes) (h : verifyAndDecrypt P dec verify r = .ok p) :
+    (r p : Bytes) (hdec : P.H ≤ r.length) (h : verifyAndDecrypt P dec verify r = .ok p) :
     ∃ b, decrypted P dec r = some b ∧
       verify (b.take (b.length - P.RS)) (b.drop (b.length - P.RS)) = true ∧
       b.take (b.length - P.RS) ++ b.drop (b.length - P.RS) = b ∧
       P.H + P.RS ≤ b.length ∧
-      (P.H ≤ r.length ∧ (b.take (b.length - P.RS)).take P.H = r.take P.H) ∧
+      (b.take (b.length - P.RS)).take P.H = r.take P.H ∧
       ∃ n, p = ((b.take (b.length - P.RS)).drop P.H).take n := by
   unfold verifyAndDecrypt at h
-  by_cases h1 : r.length < P.H
-  · simp [h1] at h
-  · simp only [h1, if_false] at h
-    cases hd : decrypted P dec r with
-    | none => simp [hd] at h
-    | some b =>
-      simp only [hd] at h
-      by_cases h2 : b.length < P.RS
-      · simp [h2] at h
-      · simp only [h2, if_false] at h
-        cases hv : verify (b.take (b.length - P.RS)) (b.drop (b.length - P.RS)) with
-        | false => simp [hv] at h
-        | true =>
-          simp only [hv, Bool.not_true, Bool.false_eq_true, if_false] at h
-          cases hp : paddingLength P (b.take (b.length - P.RS)) with
-          | error s => simp [hp] at h
-          | ok pl =>
-            simp only [hp] at h
-            have hl : (b.take (b.length - P.RS)).length = b.length - P.RS := by
-              simp [List.length_take]
-            rw [hl] at h
-            by_cases h3 : b.length - P.RS < P.H + pl
-            · simp [h3] at h
-            · simp only [h3, if_false, Out.ok.injEq] at h
-              refine ⟨b, rfl, hv, List.take_append_drop _ _, by omega, ⟨by omega, ?_⟩, ⟨_, h.symm⟩⟩
-              -- the first H bytes of b are the first H bytes of r
-              have hbH : b.take P.H = r.take P.H := by
-                unfold decrypted at hd
-                by_cases he : P.enc = true
-                · simp only [he, if_true, Option.map_eq_some_iff] at hd
-                  obtain ⟨q, _, rfl⟩ := hd
-                  have : (r.take P.H).length = P.H := by simp [List.length_take]; omega
-                  rw [List.take_append_of_le_length (by omega)]
-                  rw [List.take_take]; simp
-                · simp only [he, Bool.false_eq_true, if_false, Option.some.injEq] at hd
-                  rw [hd]
-              rw [List.take_take, ← hbH]
-              congr 1
-              omega
+  have h1 : ¬ r.length < P.H := by omega
+  simp only [h1, decide_false, Bool.and_false, Bool.false_eq_true, if_false] at h
+  cases hd : decrypted P dec r with
+  | none => simp [hd] at h
+  | some b =>
+    simp only [hd] at h
+    by_cases h2 : b.length < P.H + P.RS
+    · simp [h2] at h
+    · simp only [h2, if_false] at h
+      cases hv : verify (b.take (b.length - P.RS)) (b.drop (b.length - P.RS)) with
+      | false => simp [hv] at h
+      | true =>
+        simp only [hv, Bool.not_true, Bool.false_eq_true, if_false] at h
+        cases hp : paddingLength P (b.take (b.length - P.RS)) with
+        | error s => simp [hp] at h
+        | ok pl =>
+          simp only [hp] at h
+          split at h
+          · cases h
+          · simp only [Out.ok.injEq] at h
+            refine ⟨b, rfl, hv, List.take_append_drop _ _, by omega, ?_, ⟨_, h.symm⟩⟩
+            have hbH : b.take P.H = r.take P.H := by
+              unfold decrypted at hd
+              by_cases he : P.enc = true
+              · simp only [he, if_true, Option.map_eq_some_iff] at hd
+                obtain ⟨q, _, rfl⟩ := hd
+                have : (r.take P.H).length = P.H := by simp [List.length_take]; omega
+                rw [List.take_append_of_le_length (by omega)]
+                rw [List.take_take]; simp
+              · simp only [he, Bool.false_eq_true, if_false, Option.some.injEq] at hd
+                rw [hd]
+            rw [List.take_take, ← hbH]
+            congr 1
+            omega
 
 /-- PARTIAL (hypothesis = unforgeability, stated over the set `sent` of
     plaintext chunks `header ‖ body ‖ padding ‖ signature` the key holder
@@ -128,9 +124,9 @@ theorem C09_tamper_partial (P : Params) (dec : Bytes → Option Bytes) (encf : B
     (verify : Bytes → Bytes → Bool) (sent : List Bytes)
     (hUF : ∀ m s, verify m s = true → m ++ s ∈ sent)
     (hdec : ∀ y x, dec y = some x → y = encf x)
-    (r p : Bytes) (h : verifyAndDecrypt P dec verify r = .ok p) :
+    (r p : Bytes) (hH : P.H ≤ r.length) (h : verifyAndDecrypt P dec verify r = .ok p) :
     ∃ c ∈ sent, r = if P.enc then c.take P.H ++ encf (c.drop P.H) else c := by
-  obtain ⟨b, hd, hv, hpart, hlen, ⟨hH, _⟩, _⟩ := C09_covered P dec verify r p h
+  obtain ⟨b, hd, hv, hpart, hlen, _, _⟩ := C09_covered P dec verify r p hH h
   refine ⟨b, ?_, ?_⟩
   · have := hUF _ _ hv
     rwa [hpart] at this
@@ -158,14 +154,14 @@ theorem C09_secured_mode_never_raw (policyNone isAsym : Bool) (P : Params) (dec 
   simp [receive, carveOut]
 
 /-- hence, in such a mode, a chunk whose signature does not verify is rejected
-    by the whole function (same guard as `C09_rejected_partial`) -/
-theorem C09_secured_mode_rejects_partial (policyNone isAsym : Bool) (P : Params) (dec : Bytes → Option Bytes)
-    (verify : Bytes → Bytes → Bool) (r : Bytes) (h : sigFits P dec r = true)
+    by the whole function -/
+theorem C09_secured_mode_rejects (policyNone isAsym : Bool) (P : Params) (dec : Bytes → Option Bytes)
+    (verify : Bytes → Bytes → Bool) (r : Bytes) (hdec : P.H ≤ r.length)
     (hbad : ∀ b, decrypted P dec r = some b →
       verify (b.take (b.length - P.RS)) (b.drop (b.length - P.RS)) = false) :
     receive false policyNone isAsym P dec verify r = .err := by
   rw [C09_secured_mode_never_raw]
-  exact C09_rejected_partial P dec verify r h hbad
+  exact C09_rejected P dec verify r hdec hbad
 
 /-- the carve-out is taken only when the mode is None, and then exactly for
     policy None or symmetric chunks (an OPN under a real policy is still
@@ -174,83 +170,69 @@ theorem C09_carveout_table (m p a : Bool) :
     carveOut m p a = true ↔ m = true ∧ (p = true ∨ a = false) := by
   cases m <;> cases p <;> cases a <;> simp [carveOut]
 
-/-! ### Findings: where the unguarded totality statement fails -/
+/-! ### The three repaired defects: the former witnesses are now rejected -/
 
-/-- FINDING C09.sig-slice-short-chunk. Sign mode (no decryption): every chunk
-    that decodes (≥ header) but is shorter than a signature makes
-    `b[len(b)-RemoteSignatureLength():]` panic — whatever the keys, before any
-    check: no key is needed to trigger it. -/
-theorem C09_finding_sig_slice_short_chunk (P : Params) (dec : Bytes → Option Bytes)
+/-- was C09.sig-slice-short-chunk: Sign mode, a chunk that decodes but is shorter
+    than header + signature → error (before: panic `[-16:]`), for every dec/verify -/
+theorem C09_fixed_short_chunk (P : Params) (dec : Bytes → Option Bytes)
     (verify : Bytes → Bytes → Bool) (r : Bytes)
-    (he : P.enc = false) (h1 : P.H ≤ r.length) (h2 : r.length < P.RS) :
-    verifyAndDecrypt P dec verify r = .panic .sigSlice := by
-  have : ¬ r.length < P.H := by omega
-  simp [verifyAndDecrypt, decrypted, he, this, h2]
+    (he : P.enc = false) (h2 : r.length < P.H + P.RS) :
+    verifyAndDecrypt P dec verify r = .err := by
+  simp [verifyAndDecrypt, decrypted, he, h2]
 
 /-- the recorded witness: the 16-byte chunk `MSGF | 16 | channel 1 | token 1`
-    on a Basic256Sha256 / Sign channel (RemoteSignatureLength 32) -/
-theorem C09_finding_sig_slice_witness (dec : Bytes → Option Bytes) (verify : Bytes → Bytes → Bool) :
+    on a Basic256Sha256 / Sign channel -/
+theorem C09_fixed_short_chunk_witness (dec : Bytes → Option Bytes) (verify : Bytes → Bytes → Bool) :
     verifyAndDecrypt { H := 16, RS := 32, S := 32, enc := false } dec verify
-      [0x4d, 0x53, 0x47, 0x46, 16, 0, 0, 0, 1, 0, 0, 0, 1, 0, 0, 0] = .panic .sigSlice :=
-  C09_finding_sig_slice_short_chunk _ dec verify _ rfl (by decide) (by decide)
+      [0x4d, 0x53, 0x47, 0x46, 16, 0, 0, 0, 1, 0, 0, 0, 1, 0, 0, 0] = .err :=
+  C09_fixed_short_chunk _ dec verify _ rfl (by decide)
 
-/-- FINDING C09.padding-exceeds-chunk. SignAndEncrypt (or any OPN): a chunk
-    whose signature verifies — made by the peer that holds the keys, or for an
-    OpenSecureChannel request by anybody, since the verification key is taken
-    from the certificate inside the same chunk — and whose padding-size byte
-    is larger than the body makes
-    `messageToVerify[headerLength : len(messageToVerify)-paddingLength]` panic.
-    Witness shape: header(16) ‖ sequence header(8) ‖ 7 body bytes ‖ 0xFF ‖ signature(32). -/
-theorem C09_finding_padding_exceeds_chunk :
-    verifyAndDecrypt { H := 16, RS := 32, S := 32, enc := true } some (fun _ _ => true)
-      (List.replicate 16 1 ++ List.replicate 15 0 ++ [0xff] ++ List.replicate 32 7) = .panic .bodySlice := by
-  decide
-
-/-- General form: whenever the signature verifies and the padding count read
-    from the chunk exceeds what is there, the function panics. -/
-theorem C09_finding_padding_general (P : Params) (dec : Bytes → Option Bytes) (verify : Bytes → Bytes → Bool)
-    (r b : Bytes) (pl : Nat) (hH : P.H ≤ r.length) (hd : decrypted P dec r = some b) (hb : P.RS ≤ b.length)
-    (hv : verify (b.take (b.length - P.RS)) (b.drop (b.length - P.RS)) = true)
+/-- was C09.padding-exceeds-chunk / C09.opn-padding-exceeds-chunk: the signature
+    verifies and the padding count read from the chunk exceeds the body → error
+    (before: panic in the final slice), in general -/
+theorem C09_fixed_padding_exceeds (P : Params) (dec : Bytes → Option Bytes) (verify : Bytes → Bytes → Bool)
+    (r b : Bytes) (pl : Nat) (hH : P.H ≤ r.length) (hd : decrypted P dec r = some b)
     (hp : paddingLength P (b.take (b.length - P.RS)) = .ok pl)
     (hbig : b.length - P.RS < P.H + pl) :
-    verifyAndDecrypt P dec verify r = .panic .bodySlice := by
+    verifyAndDecrypt P dec verify r = .err := by
   have h1 : ¬ r.length < P.H := by omega
-  have h2 : ¬ b.length < P.RS := by omega
-  have hl : (b.take (b.length - P.RS)).length = b.length - P.RS := by simp [List.length_take]
-  simp [verifyAndDecrypt, h1, hd, h2, hv, hp, hl, hbig]
+  have hl := take_length_sub b P.RS
+  unfold verifyAndDecrypt
+  simp only [h1, decide_false, Bool.and_false, Bool.false_eq_true, if_false, hd]
+  by_cases h2 : b.length < P.H + P.RS
+  · simp [h2]
+  · simp only [h2, if_false, hp]
+    cases hv : verify (b.take (b.length - P.RS)) (b.drop (b.length - P.RS)) with
+    | false => simp
+    | true =>
+      have : b.length - P.RS - P.H < pl := by omega
+      simp [this]
 
-/-- FINDING C09.opn-empty-body (same slice expression): an OpenSecureChannel
-    chunk with NO encrypted part at all, whose signature sits in the
-    ReceiverCertificateThumbprint field at the end of the security header
-    (`RSA Decrypt` of zero bytes succeeds with zero bytes): the verified message
-    is a prefix of the header, so the final slice starts behind its end. Any
-    verification function that accepts (the sender signs with its own key) and
-    any header of at least a signature's length. -/
-theorem C09_finding_opn_empty_body (P : Params) (verify : Bytes → Bytes → Bool) (hdr : Bytes)
-    (he : P.enc = true) (hH : hdr.length = P.H) (hRS : 0 < P.RS) (hfit : P.RS ≤ P.H)
-    (hv : ∀ m s, verify m s = true) :
-    (verifyAndDecrypt P (fun c => if c = [] then some [] else none) verify hdr).isPanic = true := by
+/-- the recorded witness shape header(16) ‖ seq(8) ‖ 7 body bytes ‖ 0xFF ‖ signature(32) -/
+theorem C09_fixed_padding_witness :
+    verifyAndDecrypt { H := 16, RS := 32, S := 32, enc := true } some (fun _ _ => true)
+      (List.replicate 16 1 ++ List.replicate 15 0 ++ [0xff] ++ List.replicate 32 7) = .err := by
+  decide
+
+/-- was the OPN variant with no encrypted part and the signature in the
+    thumbprint field: the chunk is shorter than header + signature → error -/
+theorem C09_fixed_opn_empty_body (P : Params) (verify : Bytes → Bytes → Bool) (hdr : Bytes)
+    (he : P.enc = true) (hH : hdr.length = P.H) (hRS : 0 < P.RS) :
+    verifyAndDecrypt P (fun c => if c = [] then some [] else none) verify hdr = .err := by
   have h1 : ¬ hdr.length < P.H := by omega
   have hd : decrypted P (fun c => if c = [] then some [] else none) hdr = some hdr := by
     have : hdr.drop P.H = [] := by rw [← hH]; simp
     simp [decrypted, he, ← hH]
-  have h2 : ¬ hdr.length < P.RS := by omega
-  simp only [verifyAndDecrypt, h1, if_false, hd, h2, hv, Bool.not_true, Bool.false_eq_true]
-  cases hp : paddingLength P (hdr.take (hdr.length - P.RS)) with
-  | error s => simp [Out.isPanic]
-  | ok pl =>
-    have hl : (hdr.take (hdr.length - P.RS)).length = hdr.length - P.RS := by simp [List.length_take]
-    have : hdr.length - P.RS < P.H + pl := by omega
-    simp [this, Out.isPanic]
+  have h2 : hdr.length < P.H + P.RS := by omega
+  simp [verifyAndDecrypt, h1, hd, h2]
 
-/-- The remaining index expressions are panic sites of the model too (they need
-    a signature that verifies over a message shorter than the header, which for
-    HMAC means a 2^-64 coincidence; no finding is recorded for them, the guard
-    `wellSized` excludes them). -/
-theorem C09_guard_is_needed :
+/-- the two parameter hypotheses of `C09_total` are needed in the MODEL (the
+    code never has such parameters: `headerLength ≥ 12`, and `r` is the slice the
+    headers were decoded from) -/
+theorem C09_parameter_hypotheses_needed :
     verifyAndDecrypt { H := 0, RS := 2, S := 2, enc := true } some (fun _ _ => true) [1, 2] = .panic .padByte ∧
-    verifyAndDecrypt { H := 0, RS := 2, S := 300, enc := true } some (fun _ _ => true) [9, 1, 2] = .panic .padByte2 ∧
-    verifyAndDecrypt { H := 16, RS := 2, S := 2, enc := false } some (fun _ _ => true) [1, 2, 3] = .panic .hdr := by
+    verifyAndDecrypt { H := 1, RS := 2, S := 300, enc := true } some (fun _ _ => true) [9, 1, 2] = .panic .padByte2 ∧
+    verifyAndDecrypt { H := 16, RS := 2, S := 2, enc := true } some (fun _ _ => true) [1, 2, 3] = .panic .hdr := by
   decide
 
 /-! ### Non-vacuity -/
